@@ -434,7 +434,7 @@ fn main() {
     }
     out += "\n";
     for (coq, module, t, k) in &impl_consts {
-        let tr = Tr { cx, module: module.clone(), self_ty: Some(t.clone()), ret: Ty::Unknown, fresh: Cell::new(0), imports: RefCell::new(vec![]), callees: RefCell::new(BTreeSet::new()), local_consts: RefCell::new(vec![]) };
+        let tr = Tr { cx, module: module.clone(), self_ty: Some(t.clone()), ret: Ty::Unknown, fresh: Cell::new(0), imports: RefCell::new(vec![]), callees: RefCell::new(BTreeSet::new()), local_consts: RefCell::new(vec![]), local_const_tys: RefCell::new(vec![]) };
         let ty = cx.consts[coq].0.clone();
         let r = std::panic::catch_unwind(std::panic::AssertUnwindSafe(|| tr.pure(&k.expr, &vec![], &ty)));
         match r {
@@ -448,7 +448,7 @@ fn main() {
     let mut bodies: BTreeMap<String, (String, BTreeSet<String>)> = BTreeMap::new();
     std::panic::set_hook(Box::new(|_| {}));
     for (name, f) in &cx.fns {
-        let tr = Tr { cx, module: f.module.clone(), self_ty: f.self_ty.clone(), ret: f.ret.clone(), fresh: Cell::new(0), imports: RefCell::new(vec![]), callees: RefCell::new(BTreeSet::new()), local_consts: RefCell::new(vec![]) };
+        let tr = Tr { cx, module: f.module.clone(), self_ty: f.self_ty.clone(), ret: f.ret.clone(), fresh: Cell::new(0), imports: RefCell::new(vec![]), callees: RefCell::new(BTreeSet::new()), local_consts: RefCell::new(vec![]), local_const_tys: RefCell::new(vec![]) };
         let env: Env = f.params.clone();
         let r = std::panic::catch_unwind(std::panic::AssertUnwindSafe(|| tr.block(&f.item.stmts, env, &f.ret, K::Return)));
         match r {
